@@ -98,7 +98,7 @@ def replay(chk, pkg, test, payload, timeout=900, env=None, race=False):
     e.update(env or {})
     rc, out = gobuild.run_test(binp, test, e, timeout=timeout, cwd=d)
     if rc != 0 or not os.path.exists(tp):
-        chk.infra('replay driver %s failed (rc %s):\n%s' % (test, rc, out[-3000:]))
+        chk.infra('replay driver %s failed (rc %s):\n%s' % (test, rc, (out[:5000] + "\n ... \n" + out[-800:])))
     lines = [json.loads(x) for x in open(tp) if x.strip()]
     return lines, out, tp
 
@@ -112,7 +112,7 @@ def judge(chk, module, tracefile, cfg=None, timeout=900, extra_files=None):
     r = tlc.run(d, 'Props_' + module, cfg or ('Props_%s.cfg' % module), workers=1, timeout=timeout, heap='8g')
     res = _result(d, 'props_result.json')
     if res is None:
-        chk.infra('Props_%s did not finish:\n%s' % (module, r.stdout[-3000:]))
+        chk.infra('Props_%s did not finish:\n%s' % (module, r.std(out[:5000] + "\n ... \n" + out[-800:])))
     chk.log('judge Props_%s: %d lines, %d false formula instances, %.1fs' % (module, res['lines'], len(res['bad']), r.wall))
     return res['lines'], res['bad']
 
@@ -125,7 +125,7 @@ def conform(chk, module, tracefile, cfg=None, timeout=900, extra_files=None):
     r = tlc.run(d, 'Trace_' + module, cfg or ('Trace_%s.cfg' % module), workers=1, timeout=timeout, heap='8g')
     res = _result(d, 'trace_result.json')
     if res is None:
-        chk.infra('Trace_%s did not reach the end of the trace:\n%s' % (module, r.stdout[-3000:]))
+        chk.infra('Trace_%s did not reach the end of the trace:\n%s' % (module, r.std(out[:5000] + "\n ... \n" + out[-800:])))
     chk.log('conform Trace_%s: %d lines, %d rejected, %d states, %.1fs' % (module, res['lines'], len(res['rej']), r.distinct, r.wall))
     return res['lines'], res['rej']
 
@@ -166,7 +166,7 @@ def replay_parallel(chk, pkg, test, base, scripts, nproc=8, timeout=1800, env=No
     with open(tracefile, 'w') as f:
         for rc, out, tp in res:
             if rc != 0 or not os.path.exists(tp):
-                chk.infra('replay driver %s failed (rc %s):\n%s' % (test, rc, out[-3000:]))
+                chk.infra('replay driver %s failed (rc %s):\n%s' % (test, rc, (out[:5000] + "\n ... \n" + out[-800:])))
             for x in open(tp):
                 if x.strip():
                     f.write(x)
@@ -212,7 +212,7 @@ def tlc_lines_parallel(chk, module_file, cfg, lines, result_name, nproc=8, timeo
     for c, (r, rs) in enumerate(res):
         if rs is None:
             i = r.stdout.find('Error:')
-            chk.infra('%s did not finish:\n%s' % (module_file, r.stdout[i:i + 1500] if i >= 0 else r.stdout[-3000:]))
+            chk.infra('%s did not finish:\n%s' % (module_file, r.stdout[i:i + 1500] if i >= 0 else r.std(out[:5000] + "\n ... \n" + out[-800:])))
         out.append((chunks[c], rs, r))
     return out
 
